@@ -136,6 +136,7 @@ func ruleSpecNumberLiteral(c *Ctx, r *R) {
 		{"0x7fffffffffffffff", "int", "9223372036854775807"}, {"0X7FFFFFFFFFFFFFFF", "int", "9223372036854775807"},
 		{"0x8000000000000000", "mod", "9223372036854775808"}, {"0X8000000000000000", "mod", "9223372036854775808"},
 		{"0xFFFFFFFFFFFFFFFF", "mod", "18446744073709551615"}, {"0X10000000000000000", "mod", "18446744073709551616"}, {"0x123456789abcdef01", "mod", "20988295479420645121"},
+		{"9007199254740993", "dbl", "9007199254740993"}, {"1234567890123456789", "dbl", "1234567890123456789"}, {"0x20000000000001", "dbl", "9007199254740993"}, {"0400000000000000001", "dbl", "9007199254740993"},
 		{"08", "float", ""}, {"09", "float", ""}, {"089", "float", ""}, {"1.5", "float", ""}, {".5", "float", ""}, {"5.", "float", ""}, {"1e3", "float", ""}, {"1E3", "float", ""}, {"1e-2", "float", ""},
 		{"0.0", "float", ""}, {"5e-324", "float", ""}, {"123456789012345678901", "float", ""}, {"9223372036854775808", "float", ""}, {"1e400", "float", ""}, {"0.1e1", "float", ""},
 	}
@@ -169,6 +170,23 @@ func ruleSpecNumberLiteral(c *Ctx, r *R) {
 			}
 			val, _ := tup[0].(aIface)
 			switch p.kind {
+			case "dbl":
+				// an integer beyond 2^53: the value is a Number - carried as a float64 (the conversion rounds it), not as an
+				// int64 that keeps digits the Number does not have
+				a, isAtom := val.v.(aAtom)
+				got, isInt := val.v.(aInt)
+				want, _ := new(big.Int).SetString(p.want, 10)
+				switch {
+				case isAtom && a.name == "ParseFloat("+p.lit+")" && p.lit[0] != '0':
+				case isInt && val.dyn != nil && typeStr(val.dyn) == "float64" && new(big.Int).SetInt64(int64(got)).Cmp(want) == 0:
+				case isInt && new(big.Int).SetInt64(int64(got)).Cmp(want) == 0:
+					how = fmt.Sprintf("the int64 %d, which keeps digits the Number does not have", int64(got))
+					if f, err := strconv.ParseFloat(want.String(), 64); err == nil {
+						how = fmt.Sprintf("the int64 %d, which keeps digits the Number does not have: the value of the literal is the double %s", int64(got), strconv.FormatFloat(f, 'f', -1, 64))
+					}
+				default:
+					how = "an unexpected value (" + describeAval(val.v) + ")"
+				}
 			case "int", "mod":
 				got, ok := val.v.(aInt)
 				if !ok {
@@ -209,6 +227,8 @@ func ruleSpecNumberLiteral(c *Ctx, r *R) {
 		if how != "" && bad == "" {
 			want := p.want
 			switch p.kind {
+			case "dbl":
+				want = "a Number, i.e. the double nearest to " + p.want + " (7.8.3: rounded to a value of the Number type)"
 			case "float":
 				want = "the value of the decimal literal (strconv.ParseFloat of the same text)"
 			case "mod":
